@@ -701,7 +701,14 @@ def run_prefs(case) -> CaseResult:
                   comp_sc=[x.encode() for x in sc(mine, 'comp')],
                   host_key=hk if ref_is_server else None)
     conn = RefConn(ref)
-    link = RefLink(ref, opts(theirs))
+    # (reverse: the SSH client end of a reverse-direction connection, as
+    # listen_reverse() makes it - still the client of the negotiation)
+    reverse = bool(case.get('reverse')) and ref_is_server
+
+    if reverse:
+        labels.append('reverse-direction-client')
+
+    link = RefLink(ref, opts(theirs), reverse=reverse)
 
     try:
         link.start()
@@ -827,6 +834,9 @@ def prefs_strategy(tier: str):
             mine['mac_sc'] = draw(sub(mpool, 1, len(mpool)))
             if draw(st.booleans()):
                 mine['comp_sc'] = draw(sub(all_comp, 1, 3))
+
+        if peer == 'ref-server':
+            case['reverse'] = draw(st.booleans())
 
         return case
 
@@ -1069,6 +1079,7 @@ FAMILIES = [
            required={'all': ['peer:asyncssh', 'peer:ref-server',
                              'peer:ref-client', 'no-common', 'common',
                              'directions-offered-differently',
-                             'directions-negotiated-differently']},
+                             'directions-negotiated-differently',
+                             'reverse-direction-client']},
            case_timeout=120),
 ]
